@@ -19,6 +19,8 @@ def gen_session(prop: str, tier: str, seed: int) -> dict:
     rng = Rng(mix(seed, 'kr-gen'))
     nmax = 16 if tier == 'quick' else 24
     n = rng.pick([1, 1, 2, 2, 3, 3, 4, 5, 6, 8, 10, 12, nmax])
+    if rng.chance(0.04 if tier == 'quick' else 0.1):
+        n = rng.pick([48, 64, 96])      # long recurrences: many more iterations than any window or default
     herm = rng.chance(0.65)
     if herm:
         style = rng.wpick([('random', 4), ('diag', 2), ('blockdiag', 2.5), ('identity', 0.7), ('projector', 1), ('degenerate', 1.5), ('real', 1.5), ('lowrank', 1)])
